@@ -120,6 +120,7 @@ type runner struct {
 	lastProposal string
 	pids         []string // proposals created so far (governance scenarios)
 	govMode      bool
+	diffed       map[int]bool
 }
 
 func digest(res *core.BlockResult) map[string]interface{} {
@@ -202,6 +203,32 @@ func (r *runner) replicate(txs []pb.Transaction, primary *core.BlockResult) bool
 			return false
 		}
 		r.emit(map[string]interface{}{"ev": "Executed", "r": i + 1, "h": h, "d": digest(res)})
+		if res.Block.BlockHeader.StateRoot.String() != primary.Block.BlockHeader.StateRoot.String() && !r.diffed[i] && !(i == 2 && len(r.reps) > 2) {
+			// first divergence of this replica's state root: which stored entries differ (diagnosis only, not judged)
+			r.diffed[i] = true
+			pa, pb := r.pair.A.DumpRaw(), rep.DumpRaw()
+			keys := []string{}
+			for k, v := range pa {
+				if w, ok := pb[k]; !ok || string(w) != string(v) {
+					keys = append(keys, k)
+				}
+			}
+			for k := range pb {
+				if _, ok := pa[k]; !ok {
+					keys = append(keys, k)
+				}
+			}
+			sort.Strings(keys)
+			if len(keys) > 12 {
+				keys = keys[:12]
+			}
+			det := []map[string]interface{}{}
+			for _, k := range keys {
+				kind, addr, sk := core.DecodeKey(k)
+				det = append(det, map[string]interface{}{"kind": kind, "addr": addr, "key": sk, "primary": fmt.Sprintf("%.80q", pa[k]), "replica": fmt.Sprintf("%.80q", pb[k])})
+			}
+			r.emit(map[string]interface{}{"ev": "StateDiff", "r": i + 1, "h": h, "keys": det})
+		}
 	}
 	return true
 }
@@ -712,7 +739,7 @@ func (r *runner) run(dir string) {
 	}
 	r.pair = pair
 	defer pair.Close()
-	r.idset, r.gids = map[string]bool{}, map[string]bool{}
+	r.idset, r.gids, r.diffed = map[string]bool{}, map[string]bool{}, map[int]bool{}
 	r.govMode = p.GovMode
 	unord := map[string]bool{}
 	for _, s := range p.Unord {
